@@ -462,17 +462,21 @@ func runCase(c *Case) {
 				}
 				if kind == "outage" {
 					kind = "drop"
-					time.Sleep(45 * time.Millisecond) // three polls of the block manager see the active download
 				}
+				// a download that fails was active for a while: twenty poll intervals, so that a
+				// poll of the block manager sees it even on a heavily loaded machine (the manager
+				// gives up - by design - after 20 polls in a row without an active download;
+				// failures delivered faster than its polls would add up to that)
+				time.Sleep(300 * time.Millisecond)
 			}
 			w.deliver(p, kind)
-			again := w.rest(3*time.Second, nil)
+			again := w.rest(6*time.Second, nil)
 			if e.K == "fail" && again == nil {
 				// recovery: after a failed attempt the same block has to be requested again
 				select {
 				case <-w.idle:
 				default:
-					c.note = "no new request within 3 s after a failed download"
+					c.note = "no new request within 6 s after a failed download"
 				}
 			}
 			if e.K == "success" {
